@@ -80,6 +80,11 @@ def selftest():
     kp = P.cls("Keeper")
     expect("mutation while iterating: flagged", bool(common.mutation_during_iteration(ctx, kp.methods["mutate_while_iterating"])))
     expect("mutation of a copy: silent", not common.mutation_during_iteration(ctx, kp.methods["mutate_copy"]))
+    tb = P.cls("Table")
+    expect("dropped object (built, attribute set, handed to nobody): flagged", bool(common.dead_local_stores(ctx, tb.methods["lost_update"])))
+    expect("object stored back: silent", not common.dead_local_stores(ctx, tb.methods["stored_update"]))
+    expect("looked-up number defaulted by `or`: flagged", bool(common.numeric_lookup_or_default(tb.methods["zero_is_missing"])))
+    expect("looked-up number defaulted on absence: silent", not common.numeric_lookup_or_default(tb.methods["absent_is_missing"]))
     # the whole-package rewrites produce programs that parse and are stable under a second application of reformat
     from .audit import transforms
     with open(os.path.join(FX, "fxpkg", "lints.py")) as fh:
